@@ -34,6 +34,13 @@ def sum3 (f : Fin 3 → K) : K := f 0 + f 1 + f 2
 theorem sum3_eq_sum (f : Fin 3 → K) : sum3 f = ∑ i, f i := by
   simp [sum3, Fin.sum_univ_three]
 
+/-- sums over the rows of the symmetric (6) / general (9) storage -/
+def sumS (f : Fin 6 → K) : K := f 0 + f 1 + f 2 + f 3 + f 4 + f 5
+def sumT (f : Fin 9 → K) : K := f 0 + f 1 + f 2 + f 3 + f 4 + f 5 + f 6 + f 7 + f 8
+/-- stored vectors as lists -/
+def vecS (f : Fin 6 → K) : List K := [f 0, f 1, f 2, f 3, f 4, f 5]
+def vecT (f : Fin 9 → K) : List K := [f 0, f 1, f 2, f 3, f 4, f 5, f 6, f 7, f 8]
+
 /-- Kronecker symbol -/
 def delta : Fin 3 → Fin 3 → K
   | 0, 0 => 1 | 0, 1 => 0 | 0, 2 => 0
